@@ -1080,6 +1080,19 @@ func (t *Transaction) Catalog() *Catalog {
 	return t.catalog
 }
 
+// reset will set the transaction back to the specified catalog and dirty state
+// that have been obtained from Catalog and Dirty earlier. It is used to undo
+// the write of a call that failed after the write has been applied (catalogs
+// are never modified in place).
+func (t *Transaction) reset(catalog *Catalog, dirty bool) {
+	// acquire write lock
+	t.mutex.Lock()
+	defer t.mutex.Unlock()
+
+	t.catalog = catalog
+	t.dirty = dirty
+}
+
 // Clean will clean the oplog and only keep up to the specified amount of events
 // and delete events that are older than the specified age.
 func (t *Transaction) Clean(minSize, maxSize int, minAge, maxAge time.Duration) {
